@@ -68,7 +68,8 @@ fn bufin_s() -> BoxedStrategy<Call> {
         2 => (0x1000u16..0x8000, 0xFE00u16..=0xFEF0),
         // ends exactly at / wraps past FFFFFh
         2 => (Just(0xF000u16), 0xFE80u16..=0xFEFF),
-        2 => (Just(0xFFFFu16), 2u16..=15),
+        // FFFFh:000Fh is the last byte of the address space: the buffer starts there and continues at address 0
+        2 => (Just(0xFFFFu16), prop_oneof![3 => 2u16..=15, 2 => Just(15u16)]),
         1 => (Just(0xFFF0u16), 0x0002u16..0x00FF),
     ];
     (cap, place, 0u8..6, line_s(0, 300))
@@ -135,7 +136,7 @@ pub fn top_case_s() -> BoxedStrategy<Case18> {
         Call::BufIn { cap, seg, off, line } if seg < 0xF000 => {
             // move mid-memory placements to the top: FFFFh:2..15 or a buffer that ends exactly at FFFFFh
             if off & 1 == 0 {
-                Call::BufIn { cap, seg: 0xFFFF, off: 2 + (off % 14), line }
+                Call::BufIn { cap, seg: 0xFFFF, off: if off % 3 == 0 { 15 } else { 2 + (off % 14) }, line }
             } else {
                 Call::BufIn { cap, seg: 0xF000, off: 0xFFFE - cap as u16, line }
             }
